@@ -103,3 +103,92 @@ def spec_and_real(ctx, n_quick, n_thorough):
     ctx.note("interpreters", sorted(outs))
     ctx.note("trees", len(ts))
     return ts, cases, outs
+
+
+UNI = {"SF": "╠ ", "CF": "║ ", "LEAF": "╚ ", "SC": "├ ", "CC": "│ ", "SCC": "├─",
+       "SCH": "─ ", "COD": "└ ", "CCH": "  ", "ERR": "  "}
+ASC = {"SF": "+ ", "CF": "| ", "LEAF": "+ ", "SC": ". ", "CC": "  ", "SCC": "  ", "SCH": ". ", "COD": "` ", "CCH": "  ", "ERR": "  "}
+
+
+def real_corpus(ctx, want):
+    """Format.tla on trees converted from REAL extracted stacks (realfmt_driver.py): returns a list of problems
+    (strings) for want = 'format' (C18: marker prefixes, line counts, str == join) or 'summary' (C19: entries)."""
+    d = BUILD / "m10"
+    d.mkdir(parents=True, exist_ok=True)
+    drv = str(VERIF / "harness/drivers/realfmt_driver.py")
+    interps = available_interpreters()
+
+    def one(item):
+        v, py = item
+        opath = d / f"real_{ctx.pid}_{v}.json"
+        p, _ = run([py, drv, str(opath)], timeout=600, env=child_env(v))
+        if p.returncode != 0:
+            raise MachineryError(f"real-format driver failed under {v}: {p.stderr[-2000:]}")
+        return v, json.loads(opath.read_text())["cases"]
+
+    with ThreadPoolExecutor(4) as ex:
+        per = dict(ex.map(one, interps.items()))
+    allc = [(v, c) for v, cs in sorted(per.items()) for c in cs]
+    gpath = d / f"real_given_{ctx.pid}.json"
+    gpath.write_text(json.dumps([c["tree"] for _, c in allc]))
+    res = ctx.tlc(run_tlc("Format", "Format.cfg", workers=1, timeout=1800, env={"FM_GIVEN": str(gpath)}, name=f"fmtreal_{ctx.pid}"),
+                  "Fmt / Entries on trees converted from real extracted stacks")
+    if not res.ok:
+        return [f"model on real trees: {res.violated}"], 0, []
+    bad, n = [], 0
+    cases_for_reader = []
+    for e in res.emitted:
+        v, c = allc[e["tid"] - 1]
+        r = next(x for x in c["renderings"] if x["ctx"] == e["ctx"] and x["hidden"] == e["hidden"])
+        tag = f"[{v}] real stack '{c['label']}' show_contexts={e['ctx']} show_hidden={e['hidden']}"
+        n += 1
+        if want == "format":
+            cases_for_reader.append({"tid": e["tid"], "ctx": e["ctx"], "hidden": e["hidden"], "lines": e["lines"], "tree": c["tree"]})
+            for name, table, real in (("unicode", UNI, r["uni"]), ("ascii_only", ASC, r["asc"])):
+                if len(real) != len(e["lines"]):
+                    bad.append(f"{tag}: format({name}) has {len(real)} lines, spec {len(e['lines'])}: real {real[:6]}")
+                    continue
+                for i, (ln, x) in enumerate(zip(real, e["lines"])):
+                    prefix = "".join(table[t] for t in x["m"])
+                    body = ln[:-1] if ln.endswith("\n") else None
+                    if body is None or "\n" in body:
+                        bad.append(f"{tag}: format({name}) line {i} is not one newline-terminated line: {ln!r}")
+                        break
+                    kind = x["p"][0]
+                    if kind == "blank":
+                        ok = body.rstrip() == prefix.rstrip()
+                    else:
+                        ok = body.startswith(prefix)
+                        rest = body[len(prefix):]
+                        if ok and kind == "frame":
+                            ok = rest.startswith(c["frame_attrs"][str(x["p"][1])][2].join(("", " in "))) or (" in " in rest and c["frame_attrs"][str(x["p"][1])][2] + " in " in rest)
+                        elif ok and kind == "code":
+                            ok = rest == c["frame_attrs"][str(x["p"][1])][3]
+                        elif ok and kind == "errhdr":
+                            ok = rest == "Error while extracting stack:"
+                        elif ok and kind == "hdr":
+                            ok = rest.startswith("stackscope.Stack")
+                    if not ok:
+                        bad.append(f"{tag}: format({name}) line {i} {ln!r} does not carry markers {x['m']} / payload {x['p']}")
+                        break
+                if name == "ascii_only" and any(ord(ch) > 127 for ln in real for ch in ln):
+                    bad.append(f"{tag}: ascii_only output is not ASCII")
+            if not r["str_is_join"]:
+                bad.append(f"{tag}: str(x) is not the concatenation of format()")
+        else:
+            ents = e["entries"]
+            if len(ents) != len(r["summary"]):
+                bad.append(f"{tag}: summary has {len(r['summary'])} entries, spec {len(ents)}")
+                continue
+            for x, (fn, lineno, name) in zip(ents, r["summary"]):
+                if x[0] == "frame":
+                    fa = c["frame_attrs"][str(x[1])]
+                    ok = [fn, lineno, name] == fa[:3]
+                else:
+                    fa = c["frame_attrs"][str(x[2])]
+                    want_line = c["ctx_lines"][str(x[1])] if x[3] else fa[1]
+                    ok = fn == fa[0] and lineno == want_line and name.startswith(fa[2])
+                if not ok:
+                    bad.append(f"{tag}: summary entry {fn.split('/')[-1]}:{lineno} {name!r} does not match spec entry {x}")
+                    break
+    return bad, n, cases_for_reader
